@@ -37,29 +37,51 @@ func (m *Machine) newChan(cap int) *ChanObj {
 	return &ChanObj{id: m.nextID, cap: cap}
 }
 
+// Scheduling is delay-bounded (Emmi/Qadeer/Rakamaric): the default scheduler
+// is deterministic round-robin (next runnable goroutine after the current
+// one); every deviation — preempting a goroutine that could continue, or
+// skipping over runnable goroutines at a blocking switch — costs one delay per
+// goroutine skipped, and a path may spend at most cfg.MaxPreempt delays.
+
+// rrOrder lists the runnable goroutines other than g in round-robin order after g.
+func (m *Machine) rrOrder(g *Goroutine) []*Goroutine {
+	var r []*Goroutine
+	n := len(m.gs)
+	start := 0
+	if g != nil {
+		start = g.id + 1
+	}
+	for i := 0; i < n; i++ {
+		o := m.gs[(start+i)%n]
+		if o != g && m.runnable(o) {
+			r = append(r, o)
+		}
+	}
+	return r
+}
+
 // maybePreempt offers the scheduler a switch before a visible operation.
 func (m *Machine) maybePreempt(g *Goroutine) bool {
 	if g.atSched {
 		return false
 	}
 	g.atSched = true
-	if m.preemptions >= m.cfg.MaxPreempt {
+	left := m.cfg.MaxPreempt - m.preemptions
+	if left <= 0 {
 		return false
 	}
-	var others []*Goroutine
-	for _, o := range m.gs {
-		if o != g && m.runnable(o) {
-			others = append(others, o)
-		}
-	}
+	others := m.rrOrder(g)
 	if len(others) == 0 {
 		return false
+	}
+	if len(others) > left {
+		others = others[:left]
 	}
 	k := m.choose(1+len(others), "preempt")
 	if k == 0 {
 		return false
 	}
-	m.preemptions++
+	m.preemptions += k
 	m.cur = others[k-1]
 	return true
 }
@@ -505,19 +527,22 @@ func (m *Machine) pick() *Goroutine {
 	if g != nil && m.runnable(g) {
 		return g
 	}
-	var cands []*Goroutine
-	for _, o := range m.gs {
-		if m.runnable(o) {
-			cands = append(cands, o)
-		}
-	}
+	cands := m.rrOrder(g)
 	if len(cands) == 0 {
 		return nil
+	}
+	left := m.cfg.MaxPreempt - m.preemptions
+	if left < 0 {
+		left = 0
+	}
+	if len(cands) > left+1 {
+		cands = cands[:left+1]
 	}
 	k := 0
 	if len(cands) > 1 {
 		k = m.choose(len(cands), "sched")
 	}
+	m.preemptions += k
 	m.cur = cands[k]
 	return m.cur
 }
